@@ -304,6 +304,9 @@ func init() {
 			mkEq(app("split_e", s, sep, mkSub(n, "1")), slen(s)))))
 		ex.sc.assert(mkImp(nz, fmt.Sprintf("(forall ((k Int)) (! (=> (and (<= 0 k) (< k %s)) (and (= %s (ssub %s (split_b %s %s k) (split_e %s %s k))) (<= 0 (split_b %s %s k)) (<= (split_b %s %s k) (split_e %s %s k)) (<= (split_e %s %s k) (slen %s)) (=> (< (+ k 1) %s) (= (split_b %s %s (+ k 1)) (+ (split_e %s %s k) (slen %s)))))) :pattern (%s)))",
 			n, el, s, s, sep, s, sep, s, sep, s, sep, s, sep, s, sep, s, n, s, sep, s, sep, sep, el)))
+		// remember what the freshly allocated array was split from (used by strings.Join)
+		ex.sc.assert(mkEq(r.L[1], "0"))
+		ex.splits = append(ex.splits, splitRec{ref: r.L[0], src: s, sep: sep})
 		return r
 	})
 	reg("strings.SplitN", func(ex *Exec, fr *Frame, st *State, reach string, a []Val, sig *types.Signature, pos token.Pos) Val {
@@ -323,6 +326,20 @@ func init() {
 		r := ex.freshStr("joined")
 		ex.sc.assert(mkImp(mkEq(a[0].L[2], "0"), mkEq(r, "STR_EMPTY")))
 		ex.sc.assert(mkImp(mkEq(a[0].L[2], "1"), mkEq(r, ex.strElem(st, a[0], "0"))))
+		// Join(Split(s, a), b) is s with every a replaced by b; stated for one-byte a and b,
+		// and only when the elements still are the parts Split returned.
+		// The array must be the one a recorded Split allocated (identity of a fresh allocation).
+		ex.splitFuns()
+		ref, off, ln, sep2 := a[0].L[0], a[0].L[1], a[0].L[2], a[1].term()
+		for _, sp := range ex.splits {
+			src, sep := sp.src, sp.sep
+			tiles := fmt.Sprintf("(forall ((k Int)) (! (=> (and (<= 0 k) (< k %s)) (= %s (ssub %s (split_b %s %s k) (split_e %s %s k)))) :pattern (%s)))",
+				ln, ex.strElem(st, a[0], "k"), src, src, sep, src, sep, ex.strElem(st, a[0], "k"))
+			fact := fmt.Sprintf("(and (= (slen %s) (slen %s)) (forall ((j Int)) (! (=> (and (<= 0 j) (< j (slen %s))) (= (sat %s j) (ite (= (sat %s j) (sat %s 0)) (sat %s 0) (sat %s j)))) :pattern ((sat %s j)))))",
+				r, src, src, r, src, sep, sep2, src, r)
+			ex.sc.assert(mkImp(mkAnd(mkEq(ref, sp.ref), mkEq(off, "0"), mkEq(ln, app("split_n", src, sep)), mkEq(slen(sep), "1"), mkEq(slen(sep2), "1"), tiles), fact))
+			ex.assumedUsed["strings.Join(strings.Split(s, a), b) replaces every a in s by b (one-byte a, b)"] = true
+		}
 		return scalar(tString, r)
 	})
 	reg("strings.Replace", func(ex *Exec, fr *Frame, st *State, reach string, a []Val, sig *types.Signature, pos token.Pos) Val {
